@@ -5,7 +5,8 @@ _orm.define(globals(), "C33", ("C33",), "txn",
             "deterministic simulation: seeded ORM session histories biased to begin_nested stacks with adds, updates, deletes, PK switches and "
             "flushes; after every commit / rollback / savepoint rollback the probed rows are compared with every *loaded* attribute value "
             "(stale-value detection without triggering loads), with object states and session membership recorded at the savepoint, and "
-            "with the rows recorded at the savepoint",
+            "with the rows recorded at the savepoint; a quarter of the shaped histories remove delete-orphan members inside a SAVEPOINT that "
+            "is rolled back and then touch them again (no row may be deleted for a removal that was rolled back)",
             "seeded search over histories of nested transactions with expire_on_commit on and off; self-consistency against raw-connection probes "
             "after each transaction boundary.  Sampled.",
             "the pysqlite engine runs in the documented non-legacy mode (connect_args autocommit=False) so that SAVEPOINT is always inside a "
